@@ -288,7 +288,7 @@ CHECKS = {
             "slopes of the call and = -dC/dK where the call is smooth at the step used, "
             "scalar = vector strikes, implied density >= 0 and of mass 1 (both up to the truncation error measured "
             "by the sweep), price() dispatch; COS = closed form on BS (1e-7), FFT = COS (1e-3, strikes >= 0.25 spot, "
-            "log-return stddev <= 0.8, integrand singularity >= 1 from the real axis), VG = its CGMY parametrisation "
+            "log-return stddev <= 0.6, integrand singularity >= 1 from the real axis), VG = its CGMY parametrisation "
             "(1e-7). On smooth models (BS, HEM, Merton) a failed sweep is itself a violation. CFBlackScholes on both "
             "sides of the 1e-8 threshold of its degenerate branch (volatility, maturity): parity with its forward, "
             "bounds, time-value bound, digital in [0,df]. price() on call / put / forward products with a notional (parity, "
